@@ -1,6 +1,7 @@
 package scen
 
 import (
+	"bytes"
 	"crypto/rsa"
 	"encoding/base64"
 	"encoding/binary"
@@ -190,9 +191,11 @@ func (f faultyStore) Store(s *session.Session) error {
 }
 
 func (e *Env) NewClient(host string) error {
+	var callersLoader session.SessionLoader
 	cfg := mtproto.Config{AuthKeyFile: e.SessionPath(), ServerHost: host, PublicKey: e.PublicKey()}
 	if r := e.Sc.Resume; r != nil && r.Via != "" {
-		cfg = mtproto.Config{SessionStorage: session.NewFromFile(e.SessionPath()), ServerHost: host, PublicKey: e.PublicKey()}
+		callersLoader = session.NewFromFile(e.SessionPath())
+		cfg = mtproto.Config{SessionStorage: callersLoader, ServerHost: host, PublicKey: e.PublicKey()}
 		other := filepath.Join(e.Dir, "legacy-session.json")
 		switch r.Via {
 		case "both-absent":
@@ -223,6 +226,15 @@ func (e *Env) NewClient(host string) error {
 	m, err := mtproto.NewMTProto(cfg)
 	if err != nil {
 		return err
+	}
+	if r := e.Sc.Resume; callersLoader != nil && r != nil && cfg.SessionStorage == callersLoader {
+		// the loader is the caller's object: it goes on using it (a second client on the same store, its own bookkeeping),
+		// and what it reads through it is still what the store holds
+		if got, lerr := callersLoader.Load(); lerr != nil {
+			e.Res.Notes = append(e.Res.Notes, "loader-after-client: Load on the caller's loader fails once a client was made on it: "+lerr.Error())
+		} else if !bytes.Equal(got.Key, r.AuthKey) || got.Salt != r.Salt {
+			e.Res.Notes = append(e.Res.Notes, fmt.Sprintf("loader-after-client: the caller's loader returns key %x... salt %d after a client was made on it; the store holds key %x... salt %d", head(got.Key), got.Salt, head(r.AuthKey), r.Salt))
+		}
 	}
 	m.Warnings = make(chan error, 1000)
 	go func() {
@@ -401,4 +413,11 @@ func (e *Env) Finish() {
 	e.outMu.Unlock()
 	os.RemoveAll(e.Dir)
 	os.Exit(0)
+}
+
+func head(b []byte) []byte {
+	if len(b) > 6 {
+		return b[:6]
+	}
+	return b
 }
